@@ -58,40 +58,62 @@ def run(tier: str) -> int:
             k += 1
         budget = 160 if tier == "quick" else 2400
         t0 = time.time()
-        done = 0
-        for prog in progs:
-            if time.time() - t0 > budget:
-                break
-            done += 1
-            r = check_program(rep, wd, prog, 8)
+        def vkey_of(prog):
+            return f"{'async' if prog.reset_async else 'sync'}|low={prog.reset_active == 0}|falling={not prog.rising}|seen={_kind(prog, 'seen')}|cnt={_kind(prog, 'cnt')}|on_reset={bool(prog.meta.get('on_reset'))}" + ("|step_cond" if prog.meta.get("step_cond") else "") + ("|pulse" if "pulse" in prog.objs else "") + ("|partial" if "keep" in prog.objs else "")
+
+        def job(i, rw, wdw):
+            prog = progs[i]
+            vkey = vkey_of(prog)
+            r = check_program(rw, wdw, prog, 8)
             s = r["status"]
-            counts[s] = counts.get(s, 0) + 1
-            vkey = "|".join(f"{k}={prog.meta.get(k)}" for k in ()) + f"{'async' if prog.reset_async else 'sync'}|low={prog.reset_active == 0}|falling={not prog.rising}|seen={_kind(prog, 'seen')}|cnt={_kind(prog, 'cnt')}|on_reset={bool(prog.meta.get('on_reset'))}" + ("|step_cond" if prog.meta.get("step_cond") else "") + ("|pulse" if "pulse" in prog.objs else "") + ("|partial" if "keep" in prog.objs else "")
+            ev = []
+            out = {"status": s, "events": ev, "pairs": 0}
             if s == "violation":
-                rep.violation(f"behaviour|{vkey}|{hash_body(prog)}", f"context differs from its source semantics at clock {r['clock']}: {r['log'][-1]}", {"source": prog.source, "trace": r["trace"], "log": r["log"], "vhdl": r["vhdl"]})
-                continue
+                ev.append(("violation", f"behaviour|{vkey}|{hash_body(prog)}", f"context differs from its source semantics at clock {r['clock']}: {r['log'][-1]}", {"source": prog.source, "trace": r["trace"], "log": r["log"], "vhdl": r["vhdl"]}))
+                return out
             if s == "illegal":
-                rep.violation(f"illegal|{vkey}", f"emitted VHDL illegal: {r['why']}", {"source": prog.source, "vhdl": r["vhdl"]})
-                continue
+                ev.append(("violation", f"illegal|{vkey}", f"emitted VHDL illegal: {r['why']}", {"source": prog.source, "vhdl": r["vhdl"]}))
+                return out
             if s == "inconclusive":
-                rep.inconclusive_query(f"{vkey}: {r['why']}")
-                continue
+                ev.append(("inconclusive", f"{vkey}: {r['why']}"))
+                return out
             if s not in ("closed", "bounded"):
-                continue
-            bad = reset_check(rep.stats, prog, r["lib"], r["ref"], r["vm"], r["pairs"])
-            scen += len(r["pairs"])
-            rep.stats.nontrivial.add(r["hash"])
+                return out
+            bad = reset_check(rw.stats, prog, r["lib"], r["ref"], r["vm"], r["pairs"])
+            out["pairs"] = len(r["pairs"])
+            out["hash"] = r["hash"]
             for b in bad:
                 if b["kind"] == "inconclusive":
-                    rep.inconclusive_query(f"{vkey}: {b}")
+                    ev.append(("inconclusive", f"{vkey}: {b}"))
                     continue
                 what = b["scenario"].split(" ")[0]
                 diff = {n: (b["data"][n], b["after"][n]) for n in b["after"]}
-                rep.violation(f"reset|{what}|{_objkey(prog, b)}", f"{b['scenario']}: from pair {b['pair']} pre/post {diff}, state after {b['state_after']} ({vkey})",
-                              {"source": prog.source, "scenario": b, "vhdl": r["text"], "variant": vkey})
-            if len(rep.stats.samples) < 3:
-                rep.stats.sample({"variant": vkey, "pairs": [list(p) for p in r["pairs"]], "scenarios": "S1,S6" if not prog.reset_async else "S1-S5",
-                                  "proc": prog.source.split("def architecture(self):")[1][:600]})
+                ev.append(("violation", f"reset|{what}|{_objkey(prog, b)}", f"{b['scenario']}: from pair {b['pair']} pre/post {diff}, state after {b['state_after']} ({vkey})",
+                           {"source": prog.source, "scenario": {k: (list(v) if isinstance(v, tuple) else v) for k, v in b.items()}, "vhdl": r["text"], "variant": vkey}))
+            out["sample"] = {"variant": vkey, "pairs": [list(p) for p in r["pairs"]], "scenarios": "S1,S6" if not prog.reset_async else "S1-S5",
+                             "proc": prog.source.split("def architecture(self):")[1][:600]}
+            return out
+
+        from ..core import parallel_programs
+        results = parallel_programs(rep, len(progs), job, deadline=t0 + budget)
+        done = len(results)
+        for i in sorted(results):
+            r = results[i]
+            s = r["status"]
+            counts[s] = counts.get(s, 0) + 1
+            if s == "worker-error":
+                rep.inconclusive_query(f"program {i}: {r['why']}")
+                continue
+            for e in r["events"]:
+                if e[0] == "violation":
+                    rep.violation(e[1], e[2], e[3])
+                else:
+                    rep.inconclusive_query(e[1])
+            scen += r.get("pairs", 0)
+            if "hash" in r:
+                rep.stats.nontrivial.add(r["hash"])
+            if "sample" in r and len(rep.stats.samples) < 3:
+                rep.stats.sample(r["sample"])
         rep.stats.units |= {"cohdl.std._context._sequential_impl (sync/async wrappers, sensitivity lists, on_reset)",
                             "cohdl.std._context.SequentialContext.__call__", "cohdl._core._ir._repr.Sequential._pushed_resettable_signals",
                             "Clock/Reset classes (edge, polarity)"}
